@@ -26,11 +26,15 @@ Every exclusion is justified below by a witness on the model (section "Why each 
   expanding table every ratio is allowed on the code with the repaired flexible-width clamp (fix 75c2776), and no `ratio=0` column
   on the code before it (finding `table-ratio-zero-column`, found by this check: `old_ratio_zero_column_overflows`);
 * `Constrain` / `Align`, which render their child at a narrower width, put NO condition on that width: `render_fits_any` bounds every
-  line by `max w (smin r)` at every width.  What is asked instead is LOCAL: a table with free columns — and `Columns` — must be offered
-  one cell per column at the width it is really laid out for (its own `Table(width=…)`, else the width on offer).  At top level that is
-  implied by `smin r ≤ w`; inside a `Constrain` / `Align` narrower than that it is a real condition — NOT DISCHARGED there: no
-  counterexample is known (evaluated directly on rich in every run, and a brute-force search over 4k such tables on real rich); it needs
-  one arithmetic fact about `_calculate_column_widths`: free columns offered less than one cell each all end at one cell;
+  line by `max w (smin r)` at every width.  DISCHARGED in this round (it was a local condition "a table with free columns — and
+  `Columns` — must be offered one cell per column at the width it is really laid out for", marked NOT DISCHARGED): the arithmetic
+  fact about `_calculate_column_widths` is now proved — free columns offered LESS than one cell each (zero and negative budgets
+  included) all end at exactly one cell: `collapseWidths_low` (the collapse levels every column to 0 or 1: invariant "all ≥ 1 or all
+  in {0, 1}" over the `while` loop, `Lemmas/CollapseLow.lean`), `width_low_core` (the re-measure then hands every column one cell;
+  the padding block adds nothing), `tableConsole_decomp_any` / `columnsConsole_decomp_any` (`Lemmas/LayoutTableLow.lean`).  So the
+  exclusions "`Constrain` / `Align` narrower than the child's structural minimum", "`Table(width=tw)` below the borders plus one cell per
+  column" and "`Columns` offered fewer cells than items" are GONE from `Dom`; the precise width below the minimum is the headline
+  `free_table_below_one_cell_per_column` (exactly reached: `below_minimum_table_is_borders_plus_columns`);
 * `Columns(width=…)`: `excluded_columns_width_zero` shows the bound failing for `width=0`; for `width ≥ 1` no counterexample is known
   (evaluated directly on rich in every run, brute-forced over 40k cases) — NOT DISCHARGED: the inner grid's fixed-width columns exceed
   C07's `tableBudget` whenever both paddings are positive and there are two or more columns, where only the last-resort `ratio_reduce`
@@ -156,7 +160,7 @@ theorem old_ratio_zero_column_overflows :
 /-- the repaired code (`max(minimum, width)`): the same table is in the domain (`render_fits` applies) and is exactly as wide as asked -/
 example : Dom nowCfg wRatioZero {} 13 := by
   rw [wRatioZero, Dom]
-  refine ⟨trivial, trivial, Or.inl ⟨?_, Or.inr (by decide)⟩⟩
+  refine ⟨trivial, trivial, Or.inl ?_⟩
   intro c hc
   simp only [List.mem_cons, List.not_mem_nil, or_false] at hc
   rcases hc with rfl | rfl | rfl <;> exact ⟨⟨rfl, rfl, rfl⟩, Or.inl ⟨rfl, rfl⟩⟩
@@ -219,6 +223,67 @@ theorem table_general_bound (cfg : Cfg) (ok : CfgOk cfg) (to : TableOpts) (cols 
 theorem excluded_columns_width_zero :
     smin cwR (.columns { lay := { width := some 0 } } [wText "a", wText "b", wText "c", wText "d", wText "e"]) = 9 ∧
     widthsOf (.columns { lay := { width := some 0 } } [wText "a", wText "b", wText "c", wText "d", wText "e"]) 9 = [10] := by decide +kernel
+
+/-! ## Below one cell per column (the exclusions discharged in the fourth deepening round) -/
+
+/-- **free_table_below_one_cell_per_column.**  A table whose columns are free to wrap (no `width`, `min_width`, `no_wrap`; any
+`max_width`, any ratio on the code as it is now), at EVERY width `w` — zero room, an explicit `Table(width=tw)` smaller than its own
+borders, inside a `Constrain` / `Align` of any width: no line is wider than the width the table is laid out for (`w`, or its own
+`width`), or, when that leaves less than one cell per column, than its borders plus ONE cell per column.  No bound on the number of
+columns, rows or the cells' contents (the cells are arbitrary trees). -/
+theorem free_table_below_one_cell_per_column (cfg : Cfg) (ok : CfgOk cfg) (to : TableOpts) (cols : List Col) (o : Opts) (w : Nat)
+    (hne : cols ≠ []) (ht : annDom to.title o) (hc : annDom to.caption o)
+    (hfree : ∀ c ∈ cols, (colOptsOf c).wrappable ∧ ((cfg.fl.flexNegative = false ∧ cfg.fl.flexClampZero = false) ∨
+      (to.expand || to.width.isSome) = false ∨ (colOptsOf c).ratio ≠ some 0)) :
+    Fits cfg.cw (max (max w (to.width.getD 0)) (tableExtra to cols.length + cols.length)) (render cfg (.table to cols) o w) :=
+  Layout.table_free_bound cfg ok to cols o w hne ht hc hfree
+
+/-- the arithmetic behind it, on `Table._calculate_column_widths` itself (C07's model): columns free to wrap, measured soundly, offered
+LESS than one cell each (any integer budget): the widths are computed (no `AssertionError`), every column gets at least one cell and
+together they take no more than one cell per column (so exactly one each). -/
+theorem column_widths_below_one_cell_per_column (fl : Flags) (t : Table) (maxWidth : Int)
+    (hfirst : ∃ ws0, t.firstWidths fl maxWidth = some ws0 ∧ ws0.length = t.columns.length ∧ ∀ w ∈ ws0, 1 ≤ w) (hfree : t.AllFree)
+    (hne : t.columns ≠ []) (hnw : ∀ c ∈ t.columns, c.noWrap = false) (hmw : maxWidth < (t.columns.length : Int)) :
+    ∃ ws, t.calcWidths fl maxWidth = some ws ∧ ws.sum ≤ (t.columns.length : Int) ∧ ws.length = t.columns.length ∧ ∀ w ∈ ws, 1 ≤ w :=
+  width_low_core fl t maxWidth hfirst hfree hne hnw hmw
+
+/-- …and on `Table._collapse_widths`: every column wrappable, every width at least 1, a budget below the number of columns: every
+collapsed width is 0 or 1 (no column keeps two cells while another is starved). -/
+theorem collapse_below_one_cell_per_column (widths : List Int) (wrapable : List Bool) (maxWidth : Int)
+    (hlen : widths.length = wrapable.length) (hall : ∀ b ∈ wrapable, b = true) (h1 : ∀ w ∈ widths, 1 ≤ w)
+    (hmw : maxWidth < (widths.length : Int)) : ∀ w ∈ collapseWidths widths wrapable maxWidth, 0 ≤ w ∧ w ≤ 1 :=
+  collapseWidths_low widths wrapable maxWidth hlen hall h1 hmw
+
+/-- the hypotheses are satisfiable and the collapse is really uneven there: `[1, 0, 1]` -/
+example : collapseWidths [2, 2, 2] [true, true, true] 2 = [1, 0, 1] := by decide
+
+/-- five one-letter columns in a box: borders 6, structural minimum 6 + 4 × 3 + 4 = 22 (the last column holds a double-width character) -/
+def wTable5 (tw : Option Nat) : R :=
+  .table { box := some 15, width := tw }
+    [.mk {} (wText "a") (wText "") [wText "v w"], .mk {} (wText "b") (wText "") [wText "x"], .mk {} (wText "c") (wText "") [wText "y"],
+     .mk {} (wText "d") (wText "") [wText "z"], .mk {} (wText "e") (wText "") [wText "日本"]]
+
+/-- The bound of `free_table_below_one_cell_per_column` is reached exactly, in each of the three formerly excluded positions: the table
+inside `Constrain(width=4)`, with an explicit `Table(width=3)`, and at top level offered 7 cells — every line is 11 cells wide, the six
+border cells plus one cell per column (structural minimum 22: every one of these is in `Dom` now, and `render_fits_any` promises 22). -/
+theorem below_minimum_table_is_borders_plus_columns :
+    smin cwR (wTable5 none) = 22 ∧
+    (widthsOf (.constrain (some 4) (wTable5 none)) 30).all (· == 11) = true ∧
+    (widthsOf (wTable5 (some 3)) 30).all (· == 11) = true ∧
+    (widthsOf (wTable5 none) 7).all (· == 11) = true := by decide +kernel
+
+example : Dom nowCfg (.constrain (some 4) (wTable5 none)) {} 30 := by
+  rw [Dom, wTable5, Dom]
+  refine ⟨trivial, trivial, Or.inl ?_⟩
+  intro c hc
+  simp only [List.mem_cons, List.not_mem_nil, or_false] at hc
+  rcases hc with rfl | rfl | rfl | rfl | rfl <;> exact ⟨⟨rfl, rfl, rfl⟩, Or.inl ⟨rfl, rfl⟩⟩
+
+/-- `Columns` offered fewer cells than it has items (inside a `Constrain(width=2)`): five items, one column per row, no line wider than 2 -/
+example : Dom nowCfg (.constrain (some 2) (.columns {} [wText "a", wText "b", wText "c", wText "d", wText "e"])) {} 30 := by
+  rw [Dom, Dom]; exact ⟨trivial, rfl⟩
+example : (widthsOf (.constrain (some 2) (.columns {} [wText "a", wText "b", wText "c", wText "d", wText "e"])) 30).all (· ≤ 2) = true := by
+  decide +kernel
 
 /-! ## Non-vacuity: nested trees inside the domain, at their structural minimum -/
 
